@@ -5,10 +5,40 @@ package main
 
 var knownUB = map[int]uint64{}
 
+// boundFact keeps, for every term with a learned bound, the (unsimplified) fact itself: queries that mention the term
+// get the fact back as an assumption, since later constructions of the same comparison simplify to true.
+var boundFact = map[int]*Term{}
+
 func setUB(t *Term, v uint64) {
 	if old, ok := knownUB[t.ID]; !ok || v < old {
 		knownUB[t.ID] = v
+		if t.Sort.IsBV() && !t.hasBound {
+			boundFact[t.ID] = mk("bvule", SBool, t, BVConst(v, t.Sort.Width()))
+		}
 	}
+}
+
+// boundFactsFor returns the learned bound facts of all terms occurring in fs.
+func boundFactsFor(fs ...*Term) []*Term {
+	seen := map[int]bool{}
+	var out []*Term
+	var walk func(t *Term)
+	walk = func(t *Term) {
+		if seen[t.ID] {
+			return
+		}
+		seen[t.ID] = true
+		if f, ok := boundFact[t.ID]; ok {
+			out = append(out, f)
+		}
+		for _, a := range t.Args {
+			walk(a)
+		}
+	}
+	for _, f := range fs {
+		walk(f)
+	}
+	return out
 }
 
 // ub returns an upper bound of t (as an unsigned number) if one is known.
